@@ -6,12 +6,16 @@
    Model/Postfix.v (ConvertToPostfix), Model/Tree.v (createExpressionTree,
    parse), Spec/PrecGrammar.v (the grammar: operands, f(x), infix, ( ) [ ] { },
    a[i]; okp = parentheses present where this shunting-yard needs them).
-   The regex lexer is not modelled: layout-insensitivity is tested by the
-   correspondence check, not proved (partial). *)
+   Base/Regex.v + Gen/LexRules.v (regenerated from lexer_participle.go) +
+   Model/Lexer.v: the participle driver and Tokenise, so parse_text goes from
+   bytes to the operator tree.  Layout-insensitivity is proved for leading
+   layout (all inputs) and for fully spaced texts under an executable side
+   condition on each token (partial); removing ALL layout between two tokens
+   is only tested. *)
 From Coq Require Import String.
-From YQ Require Import Base.Str Gen.OpTable Model.Postfix Model.Tree Model.PostProcess
+From YQ Require Import Base.Str Base.Regex Gen.OpTable Gen.LexRules Model.Postfix Model.Tree Model.PostProcess Model.Lexer
   Spec.PrecSpec Spec.PrecGrammar Spec.PrecRaw
-  Proofs.PrecTableProofs Proofs.PostfixProofs Proofs.PostProcessProofs.
+  Proofs.PrecTableProofs Proofs.PostfixProofs Proofs.PostProcessProofs Proofs.RegexProofs Proofs.LexerProofs.
 Open Scope N_scope.
 
 (* ---- the regenerated table against the specified relation ---- *)
@@ -176,6 +180,86 @@ Theorem C09_colon_before_close_refuted :
 Proof. exact colon_close_refuted. Qed.
 Print Assumptions C09_colon_before_close_refuted.
 
+(* ---- the regex lexer (participle driver over the regenerated rules) ---- *)
+
+(* progress / termination: the fuel the model gives itself always suffices,
+   and no token is ever zero-width (no rule of the table is nullable) *)
+Theorem C09_lex_progress :
+  forall s, tokenise_raw s <> LOutOfFuel /\ tokenise_raw s <> LErr LexEmptyMatch.
+Proof. exact tokenise_total. Qed.
+Print Assumptions C09_lex_progress.
+
+Theorem C09_lex_token_consumes :
+  forall s r rest, first_match lex_rules s = Some (r, rest) -> In r lex_rules /\ (List.length rest < List.length s)%nat.
+Proof. exact first_match_progress. Qed.
+Print Assumptions C09_lex_token_consumes.
+
+(* first-match determinism: the winning rule is the first of the list that matches *)
+Theorem C09_lex_first_match :
+  forall s r rest, first_match lex_rules s = Some (r, rest) ->
+  exists pre post, lex_rules = (pre ++ r :: post)%list /\
+    (forall q, In q pre -> rule_match q s = None) /\ rule_match r s = Some rest.
+Proof. exact (first_match_spec lex_rules). Qed.
+Print Assumptions C09_lex_first_match.
+
+(* leading layout: any run of blanks, TABs and newlines in front of ANY byte
+   string changes neither the token list nor the parse (first-character
+   analysis of all rules, checked over the regenerated table) *)
+Theorem C09_leading_layout_skipped :
+  forall ws s, layout_run ws -> bytes s ->
+  tokenise_raw (ws ++ s)%list = tokenise_raw s /\ parse_text (ws ++ s)%list = parse_text s.
+Proof. exact (fun ws s Hw Hb => conj (leading_layout ws s Hw Hb) (leading_layout_parse ws s Hw Hb)). Qed.
+Print Assumptions C09_leading_layout_skipped.
+
+(* a token followed by layout: if t lexes as exactly one token by rule R and
+   the executable condition safe_after holds for the layout byte c, then in
+   front of c and ANY continuation z it is still that one token, and z is
+   lexed as on its own *)
+Theorem C09_token_then_layout_partial :
+  forall t c z R, first_match lex_rules t = Some (R, []) -> safe_after lex_rules t c = true ->
+  in_ranges c layoutW = true -> bytes z ->
+  tokenise_raw (t ++ c :: z)%list = lprepend (tok_of R t) (tokenise_raw z).
+Proof. exact token_then_layout. Qed.
+Print Assumptions C09_token_then_layout_partial.
+
+(* fully spaced texts (token, layout, token, layout ...; a comment before a
+   newline counts as a token without yq token): the token list is the
+   concatenation of the single tokens and does not depend on which and how
+   many layout bytes separate them *)
+Theorem C09_spaced_layout_insensitive_partial :
+  (forall l, Forall item_ok l ->
+     tokenise_raw (spaced l) = LOk (flat_map (fun it : item => tok_text (fst (fst it))) l)) /\
+  (forall l1 l2, Forall item_ok l1 -> Forall item_ok l2 ->
+     List.map (fun it : item => fst (fst it)) l1 = List.map (fun it : item => fst (fst it)) l2 ->
+     tokenise_raw (spaced l1) = tokenise_raw (spaced l2)).
+Proof. exact (conj spaced_tokens spaced_layout_insensitive). Qed.
+Print Assumptions C09_spaced_layout_insensitive_partial.
+
+(* exceptions, on the model (= the implementation, KNOWN_FINDINGS sub-number):
+   removing the blanks around `-` before a digit changes the tokens *)
+Theorem C09_layout_minus_number_refuted :
+  tokenise_raw (S_ "3 - 1") <> tokenise_raw (S_ "3-1") /\
+  tokenise_raw (S_ "3 - 1") <> tokenise_raw (S_ "3 -1") /\
+  tokenise_raw (S_ "3-1") = tokenise_raw (S_ "3 -1").
+Proof. exact minus_number_layout_sensitive. Qed.
+Print Assumptions C09_layout_minus_number_refuted.
+
+(* the side condition is not vacuous: after an unterminated quote following a dot (dot, quote, a) a newline
+   (not a blank) lets a later quote turn it into a wrapped path element *)
+Theorem C09_layout_unterminated_quote_refuted :
+  tokenise_raw (S_ ".""a" ++ nl ++ S_ "b""")%list <> tokenise_raw (S_ ".""a b""") /\
+  safe_after lex_rules (S_ ".""a") 10 = false /\ safe_after lex_rules (S_ ".""a") 32 = true.
+Proof. exact unterminated_wrapped_path_layout_sensitive. Qed.
+Print Assumptions C09_layout_unterminated_quote_refuted.
+
+(* TAB after a path element or `.` is layout since the repair 5a4c6b6 *)
+Theorem C09_tab_after_path_is_layout :
+  tokenise_raw (S_ ".a" ++ tab ++ S_ "| .b")%list = tokenise_raw (S_ ".a | .b") /\
+  tokenise_raw (S_ "." ++ tab ++ S_ "| .b")%list = tokenise_raw (S_ ". | .b") /\
+  safe_after lex_rules (S_ ".a") 9 = true /\ safe_after lex_rules (S_ ".") 9 = true.
+Proof. exact tab_after_path_is_layout. Qed.
+Print Assumptions C09_tab_after_path_is_layout.
+
 (* the hypotheses are satisfiable and the two spellings really differ:
    (1 | 2) + select(.a == 1)[length]?  *)
 Example C09_example :
@@ -190,3 +274,10 @@ Example C09_raw_example :
   List.length (rrender w_cptf w_raw_example) = 10%nat /\
   List.length (render w_raw_example) = 12%nat.
 Proof. exact raw_example_ok. Qed.
+
+(* a spaced text with TABs, newlines and a comment full of brackets: the item
+   condition holds for every token and the parse is that of `.a | select(.b 12)` *)
+Example C09_spaced_example :
+  Forall item_ok w_items /\
+  parse_text (spaced w_items) = parse_text (S_ ".a | select(.b 12)").
+Proof. exact spaced_example. Qed.
